@@ -227,6 +227,24 @@ def r15_4(ctx):
     ccs = [ct for bi, d, ct in calls_in(ctx, w) if d == CS]
     ok = len(ccs) == 1 and fwd(ccs[0][2])
     ctx.check(ok, R, 'draw_target::DrawTarget::copy_surface|wiring', w.loc(), 'composite_surface(src, src_rect, dst, ..)', 'copy_surface does not forward (src, src_rect, dst) unchanged')
+    # the three wrappers do nothing else: the delegation is on every path and is their only write to the pixels
+    for name in ('copy_surface', 'blend_surface', 'blend_surface_with_alpha'):
+        w = ctx.body(DT + name, R)
+        wan = ctx.an(w)
+        sites = set(bi for bi, d, ct in calls_in(ctx, w) if d == CS)
+        okp, pth = wan.cfg.must_pass_through(0, sites)
+        ctx.check(okp and bool(sites), R, 'draw_target::DrawTarget::%s|delegates on every path' % name, w.loc(), 'every returning path goes through composite_surface',
+                  '%s can return without going through composite_surface (blocks %s): a shortcut places pixels without the clamping and offset logic of composite_surface (e.g. a whole-surface copy that ignores src_rect.min)' % (name, pth))
+        others = []
+        for a, v, pt, kind in wan.stores:
+            r, nm = field_path(a)
+            if r == ('param', 1) and nm[:1] == ['buf'] and not (kind == 'call' and is_call(v, 'composite_surface')):
+                others.append(fmt(w, v)[:80])
+        for bi, d, ct in calls_in(ctx, w):
+            if d and d != CS and ct[2] and any(is_self_field(strip_all(x), 'buf') for a0 in ct[2] for x in subterms(a0)):
+                others.append(d)
+        ctx.check(not others, R, 'draw_target::DrawTarget::%s|no other pixel access' % name, w.loc(), 'self.buf is touched only through composite_surface',
+                  '%s also accesses self.buf directly (%s): pixels are placed outside composite_surface' % (name, sorted(set(others))))
 
 
 def run(ctx):
@@ -239,4 +257,4 @@ def run(ctx):
         if info is not None:
             r15_2(ctx, b, rc, info)
     import engine
-    engine.run_rules(ctx, [lambda c: r15_3(c, b), r15_4, dt.r03_6, dt.r03_1])
+    engine.run_rules(ctx, [lambda c: r15_3(c, b), r15_4, dt.r03_6, dt.r03_1, dt.r03_10])
